@@ -295,6 +295,55 @@ def own_resets(rng, kind):
     return recs
 
 
+def interrupted_reset(rng, how):
+    """a reset that does not run to its end - its caller gives up on it while the client's handler of the disconnect
+    event is suspended ("cancel"), or that handler raises ("raise") - followed by a second reset: the second one
+    finishes what the first left behind"""
+    mode = {"first": True}
+
+    async def on_event(sess, man, event, rec, kw):
+        if event.name == "RUNNING_SPA_DISCONNECTED" and mode["first"]:
+            mode["first"] = False
+            if how == "cancel":
+                await asyncio.sleep(5.0)
+            else:
+                raise RuntimeError("client handler failed")
+
+    recs = []
+    with AsyncSession(on_event=on_event, rank=rng.choice(["stable", "perm", "reverse"]), rank_seed=rng.random()) as s:
+        loop = s.loop
+        if not s.wait_connected(60):
+            raise env.MachineryError("interrupted_reset: no connection")
+        s.advance(3.0)
+        tasks0 = list(loop.tasks)
+        transports0 = list(loop.transports)
+        t1 = loop.create_task(s.man.async_reset(), name="GV:reset-1")
+        s.advance(0.5)
+        if how == "cancel":
+            if t1.done() or mode["first"]:
+                raise env.MachineryError("interrupted_reset: the first reset was not suspended in the client's handler")
+            t1.cancel()
+        s.advance(0.2)
+        if not t1.done():
+            raise env.MachineryError("interrupted_reset: the first reset is still running")
+        if how == "raise" and (t1.cancelled() or t1.exception() is None):
+            # the library absorbed the handler's failure: the first reset ran to its end, an ordinary reset
+            pass
+        s.run(s.man.async_reset())
+        s.advance(0.3)
+        snap = snapshot(s, tasks0, transports0)
+        if any(e[1] == "LOC" for e in snap["endpoints_open"]) or any(t.startswith("LOC:") for t in snap["tasks_alive"]):
+            from geckolib.config import GeckoConfig
+            s.advance(GeckoConfig.DISCOVERY_TIMEOUT_IN_SECONDS + 0.5)
+            later = snapshot(s, tasks0, transports0)
+            snap = {"endpoints_open": [e for e in snap["endpoints_open"] if e[1] != "LOC"] + [e for e in later["endpoints_open"] if e[1] == "LOC"],
+                    "tasks_alive": [t for t in snap["tasks_alive"] if not t.startswith("LOC:")] + [t for t in later["tasks_alive"] if t.startswith("LOC:")]}
+        recs.append({"kind": "reset", "point": 920000 + (0 if how == "cancel" else 1), "within": 300, **snap})
+        s.advance(100.0)
+        recs.append(steady(s, "after-interrupted-reset-" + how, 920000))
+    return recs
+
+
 class tidy_period:
     """run a scenario with another task-tidy period (a configuration constant of both tables)"""
 
@@ -434,6 +483,8 @@ def run(ctx):
         recs += exit_at(rng, p)
         recs += exit_at(rng, p, yielding=True)
     recs += exit_at(rng, 14.0, blackout=True)
+    recs += interrupted_reset(rng, "cancel")
+    recs += interrupted_reset(rng, "raise")
     recs += own_resets(rng, "recovery")
     recs += own_resets(rng, "recovery-yielding")
     recs += own_resets(rng, "client-in-facade-retry")
